@@ -54,6 +54,7 @@ def gen_case(rng):
             'order': rng.sample(['pvp', 'support', 'signal'], 3), 'index_by': 'name'}
     if plan['mode'] == 'pieces' and rng.random() < 0.35:
         plan['index_by'] = 'int'
+    plan['permute_pvp_fields'] = rng.random() < 0.3
     if amp and plan['formatted'] and plan['mode'] == 'pieces' and plan['order'].index('pvp') > plan['order'].index('signal'):
         plan['order'] = ['pvp'] + [x for x in plan['order'] if x != 'pvp']   # AmpSF must be known before formatted writes (documented)
     return {'fmt': fmt, 'sizes': sizes, 'amp_sf': amp, 'support': sup, 'text': text, 'pvp_options': opts, 'collect_type': collect,
@@ -77,6 +78,8 @@ def write_case(rng, meta, pvp, raw, support, case, tmpdir, index_by):
     w = None
     try:
         w = CRSDWriter1(fo, meta.copy(), check_existence=False)
+        if plan.get('permute_pvp_fields'):
+            pvp = cphdgen.permute_pvp_fields(rng, pvp)
         amp = {k: (v['AmpSF'] if 'AmpSF' in v.dtype.names else None) for k, v in pvp.items()}
         chan_ids = [c.Identifier for c in meta.Data.Channels]
         sup_ids = [s.Identifier for s in (meta.Data.SupportArrays or [])]
